@@ -35,7 +35,7 @@ def run(chk):
         elif (o["tnum"], o["tden"]) != (8, 4):
             n += 1
     if len(fields) < 150:
-        raise ToolError("vacuity: only %d fields probed" % len(fields))
+        chk.vacuity("vacuity: only %d fields probed" % len(fields))
     chk.cov["distinct_nontrivial"] = n
     chk.assumptions += ["a wrong neighbour chosen inside the slack band around the half step is not a violation of C11 as stated and is not detectable",
                         "probe inputs are computed in the field's float type by the harness (construction, not judgement)"]
